@@ -14,7 +14,7 @@ import PycsepVerif.Model.Filter
   and, per scanned event, the float `compute_mct(millis_to_days(time - event_epoch), m_main) = m_main - 4.5 - 0.75*log10(t)`
   (:611, :636-637). `10 **` and `log10` are transcendental: the model takes their RESULTS as inputs (`tCrit`, and the
   decision `below e` = `mw < mct` of every event), exactly as the sampler model takes the uniform draws. Everything else — the
-  IndexError of `times[0]` on an empty catalog, the short-circuit on the first event, the `break` at the first event later
+  early return for an empty catalog (fix D37, cafbaf1; before it `times[0]` raised IndexError: `applyMctD37`), the short-circuit on the first event, the `break` at the first event later
   than `t_crit_epoch` (which leaves ALL later rows untouched, in or out of the window: the code assumes a time-sorted catalog),
   the `continue` for events before the mainshock, the boolean-mask indexing and the in-place replacement — is modelled as is.
 -/
@@ -30,7 +30,7 @@ structure Mct where
   below : Event → Bool
 
 inductive MctErr where
-  | emptyCatalog      -- IndexError: `times[0]` on a catalog without events (catalogs.py:625)
+  | emptyCatalog      -- IndexError: `times[0]` on a catalog without events (the code BEFORE fix D37)
   deriving DecidableEq, Repr
 
 /-- the loop catalogs.py:630-640 together with the mask indexing :642 -/
@@ -42,11 +42,17 @@ def mctLoop (p : Mct) : List Event → List Event
     else if p.below e then mctLoop p es                                   -- :639 `filter[i] = False`
     else e :: mctLoop p es
 
-/-- `apply_mct` on the rows of the catalog (catalogs.py:618-644) -/
-def applyMct (p : Mct) (es : List Event) : Except MctErr (List Event) :=
+/-- `apply_mct` on the rows of the catalog (catalogs.py:618-648, with fix D37: `if self.event_count == 0: return self`) -/
+def applyMct (p : Mct) (es : List Event) : List Event :=
   match es with
-  | [] => .error .emptyCatalog                                            -- :625 `times[0]`
-  | e :: _ => if p.tCrit < (e.originTime : Rat) then .ok es else .ok (mctLoop p es)   -- :625-626 short-circuit
+  | [] => []                                                              -- D37: nothing to cut
+  | e :: _ => if p.tCrit < (e.originTime : Rat) then es else mctLoop p es -- short-circuit on the first row
+
+/-- the code BEFORE fix D37: `times[0]` on an empty catalog raised IndexError -/
+def applyMctD37 (p : Mct) (es : List Event) : Except MctErr (List Event) :=
+  match es with
+  | [] => .error .emptyCatalog
+  | e :: _ => if p.tCrit < (e.originTime : Rat) then .ok es else .ok (mctLoop p es)
 
 /-- the window of the cut and the specification predicate: a row is REMOVED iff it lies in
     `[event_epoch, t_crit_epoch]` and its magnitude is below the completeness magnitude at its time -/
@@ -55,9 +61,24 @@ def inWindow (p : Mct) (e : Event) : Bool := decide ((e.originTime : Rat) ≤ p.
 def mctKeep (p : Mct) (e : Event) : Bool :=
   !(decide (p.eventEpoch ≤ (e.originTime : Rat)) && decide ((e.originTime : Rat) ≤ p.tCrit) && p.below e)
 
-/-- `apply_mct` is always in place and returns `self` (catalogs.py:643-644): the object keeps filters and region -/
-def stepMct (c : Cat) (p : Mct) : Except MctErr Cat :=
-  (applyMct p c.events).map (fun es => { c with events := es })
+/-- `apply_mct` is always in place and returns `self`: the object keeps filters and region -/
+def stepMct (c : Cat) (p : Mct) : Cat := { c with events := applyMct p c.events }
+
+/-! ### spatial filter with a quadtree region (`QuadtreeGrid2D.get_masked`, added by fix D42 cf7bcb4) -/
+
+/-- the tiles of a quadtree grid as half-open boxes `[x0, x1) × [y0, y1)` (regions.py `bounds`: x0, y0, x1, y1) -/
+structure QuadRegion where
+  bounds : List (Rat × Rat × Rat × Rat)
+  deriving DecidableEq, Repr
+
+def inTile (b : Rat × Rat × Rat × Rat) (lon lat : Rat) : Bool :=
+  decide (b.1 ≤ lon) && decide (b.2.1 ≤ lat) && decide (lon < b.2.2.1) && decide (lat < b.2.2.2)
+
+/-- `mask[i] = numpy.size(self._find_location(lon, lat)) == 0`: True = in no tile -/
+def QuadRegion.masked (r : QuadRegion) (lon lat : Rat) : Bool := !(r.bounds.any (fun b => inTile b lon lat))
+
+def filterSpatialQuad (r : QuadRegion) (es : List Event) : List Event :=
+  filterSpatialBy (fun e => r.masked e.longitude e.latitude) es
 
 /-! ### the filter stage of `CatalogForecast.__next__` (forecasts.py:618-625) -/
 
@@ -70,7 +91,6 @@ structure NextCfg where
   region : Option Region         -- `self.region`
 
 inductive NextErr where
-  | emptyCatalog                 -- IndexError out of `apply_mct`
   | noRegion                     -- CSEPCatalogException out of `filter_spatial(None)` on a catalog without region
   deriving DecidableEq, Repr
 
@@ -79,15 +99,13 @@ inductive NextErr where
 def nextFilter (cfg : NextCfg) (c : Cat) : Except NextErr Cat :=
   if !cfg.applyFilters then .ok c else
   let c1 : Cat := if cfg.filters.isEmpty then c else (stepFilter c cfg.filters true).2
-  match (match cfg.mct with
-         | none => Except.ok c1
-         | some p => (match stepMct c1 p with | .ok c2 => .ok c2 | .error _ => .error NextErr.emptyCatalog)) with
-  | .error e => .error e
-  | .ok c2 =>
-    if cfg.spatial then
-      match resolveRegion c2 cfg.region with
-      | none => .error .noRegion
-      | some r => .ok (stepSpatial c2 r true).2
-    else .ok c2
+  let c2 : Cat := match cfg.mct with
+    | none => c1
+    | some p => stepMct c1 p
+  if cfg.spatial then
+    match resolveRegion c2 cfg.region with
+    | none => .error .noRegion
+    | some r => .ok (stepSpatial c2 r true).2
+  else .ok c2
 
 end CatFilter
